@@ -159,3 +159,25 @@ def gps_bounded(vc, edge):
 
 gps_bounded.shapes = lambda tier: [dict(edge=True), dict(edge=False)]
 gps_bounded.native_random = 4000
+
+
+@contract("SyncPatterns.total", "okdmr.dmrlib.etsi.layer2.elements.sync_patterns:SyncPatterns.from_bits", ["C03", "C01", "C19"],
+          note="the 48-bit SYNC enumeration (too wide for Element.enum_total's table): any 48 bits; the ten defined patterns map to themselves, anything else to EmbeddedSignalling")
+def sync_total(vc):
+    from okdmr.dmrlib.etsi.layer2.elements.sync_patterns import SyncPatterns
+    from contracts.hytera import octs, be_int
+
+    x = vc.bits(48, "x")
+    keep = x.copy()
+    m = SyncPatterns.from_bits(x)
+    v = vc.from_bits(x.tolist())
+    patterns = [p for p in SyncPatterns if p is not SyncPatterns.EmbeddedSignalling]
+    defined = vc.or_(*[vc.eq(v, p.value) for p in patterns])
+    vc.prove("never_maps_to_nothing", isinstance(m, SyncPatterns))
+    vc.prove("a_defined_pattern_maps_to_itself", vc.implies(defined, m is not SyncPatterns.EmbeddedSignalling and vc.eq(m.value if m is not SyncPatterns.EmbeddedSignalling else 0, v)))
+    vc.prove("anything_else_is_embedded_signalling", vc.implies(vc.not_(defined), m is SyncPatterns.EmbeddedSignalling))
+    if m is not SyncPatterns.EmbeddedSignalling:
+        vc.prove("a_defined_pattern_serialises_to_the_same_48_bits", vc.eq(m.as_bits(), keep))
+    raw = x.tobytes()
+    vc.prove("resolve_bytes_agrees_with_from_bits", SyncPatterns.resolve_bytes(raw) is m)
+    vc.prove("frame_argument_unchanged", vc.eq(x, keep))
